@@ -2,6 +2,7 @@
 //! the real rustradio code in /repo (built with --cfg rustradio_verif).
 mod ax25;
 mod bench;
+mod dsp;
 mod blocks;
 mod common;
 mod formats;
@@ -19,6 +20,7 @@ fn main() {
         "ring-trace" => ring::cmd_trace(rest),
         "repeat-replay" => ring::cmd_repeat_replay(rest),
         "ax25-run" => ax25::cmd_run(rest),
+        "dsp-kernels" => dsp::cmd_kernels(rest),
         "bench" => bench::cmd_bench(rest),
         "codec" => formats::cmd_codec(rest),
         "reasm" => formats::cmd_reasm(rest),
